@@ -29,6 +29,7 @@ INITIALS = [["l0", "l1", "l2"], ["only"], ["é", "", "žluť", ""], ["", ""], ["
 
 BOUNDS = {
     "quick": {
+        "duplicates": "6 histories with equal contents in file-backed and in-memory lines (index = first occurrence, remove, count) x 4 variants", 
         "variants": VARIANTS,
         "initial": "l0 l1 l2 (LF-terminated) for the exhaustive part; 6 other initial contents (1 line, empty "
                    "lines, multi-byte, duplicates, unterminated last line, empty file for buffered variants) "
@@ -40,6 +41,7 @@ BOUNDS = {
         "line_endings": LINE_ENDINGS,
     },
     "thorough": {
+        "duplicates": "6 histories with equal contents in file-backed and in-memory lines (index = first occurrence, remove, count) x 4 variants", 
         "variants": VARIANTS,
         "initial": "as quick",
         "histories": "length <= 3 over the full alphabet x 4 variants, length 4 over the full alphabet (160000) x 2 "
@@ -78,6 +80,13 @@ def cases(tier, seed):
     for ops in itertools.product(core, repeat=core_len):
         for v in VARIANTS:
             yield {"kind": "history", "cls": v, "init": init, "terminated": True, "ops": [list(o) for o in ops]}
+    # equal contents in several places, some read from the file and some held in memory: index / remove / count must treat them as a list does
+    dup_hists = [[["setv", 2, "l1"], ["idx", "l1"], ["rem", "l1"], ["idx", "l1"]], [["appv", "l0"], ["idx", "l0"], ["rem", "l0"], ["cnt", "l0"]],
+                 [["insv", 0, "l2"], ["idx", "l2"], ["rem", "l2"]], [["appv", "l1"], ["setv", 0, "l1"], ["cnt", "l1"], ["rem", "l1"], ["idx", "l1"]],
+                 [["setv", -1, "l0"], ["rev"], ["idx", "l0"], ["rem", "l0"], ["rem", "l0"]], [["appv", "l2"], ["del", 0], ["idx", "l2"], ["rem", "l2"]]]
+    for ops in dup_hists:
+        for v in VARIANTS:
+            yield {"kind": "history", "cls": v, "init": init, "terminated": True, "ops": ops}
     rng = random.Random(seed)
     lo, hi, cnt = (4, 6, 400) if quick else (5, 8, 4000)
     for _ in range(cnt):
@@ -129,11 +138,21 @@ def _apply(cls, f, ref, op, new):
         fr = lambda: ref.extend([new])  # noqa: E731
     elif k == "read":
         fa, fr = (lambda: U.unwrap(cls, f[0:2])), (lambda: ref[0:2])
+    elif k == "setv":          # store a GIVEN content (may equal the content of another line)
+        fa, fr = (lambda: f.__setitem__(op[1], w(op[2]))), (lambda: ref.__setitem__(op[1], op[2]))
+    elif k == "appv":
+        fa, fr = (lambda: f.append(w(op[1]))), (lambda: ref.append(op[1]))
+    elif k == "insv":
+        fa, fr = (lambda: f.insert(op[1], w(op[2]))), (lambda: ref.insert(op[1], op[2]))
+    elif k == "idx":           # index of the FIRST occurrence
+        fa, fr = (lambda: f.index(w(op[1]))), (lambda: ref.index(op[1]))
+    elif k == "cnt":
+        fa, fr = (lambda: f.count(w(op[1]))), (lambda: ref.count(op[1]))
     else:
         raise ValueError(op)
     ra, ea = U.call(fa)
     rr, er = U.call(fr)
-    return ra, ea, rr, er, k != "read"
+    return ra, ea, rr, er, k not in ("read", "idx", "cnt")
 
 
 def _state_diff(cls, f, ref):
